@@ -123,6 +123,16 @@ def gen_cases(rng, tier):
             for m in muts:
                 items.append(build(dict(kind="F", store=store % 5, first=first, data=data, ops=[m] + obs_all)))
                 store += 1
+    # 1b. the safe constructors: FromIterator / From give an empty buffer over the collected storage
+    #     (start 0, len 0), from_full a full one (start 0, len n); Fixed: first 0.  cap 0 must panic.
+    obs_all = [["iter"], ["slices"], ["len"], ["full"], ["empty"], ["maxlen"], ["push", 7], ["push", 8], ["iter"], ["pop"], ["len"]]
+    for cap in range(0, 6):
+        data = [10 * (i + 1) for i in range(cap)]
+        for kind, (st, ln) in ((5, (0, 0)), (6, (0, cap)), (7, (0, 0)), (8, (0, 0))):
+            items.append(build(dict(kind="B", store=kind, start=st, len=ln, data=data, ops=obs_all)))
+        for kind in (5, 6, 7):
+            items.append(build(dict(kind="F", store=kind, first=0, data=data,
+                                    ops=[["len"], ["iter"], ["push", 7], ["get", 0], ["iter"], ["slices"]])))
     n_exh = len(items)
     # 2. random histories from random raw states
     n_rand = 1500 if tier == "quick" else 30000
